@@ -194,6 +194,44 @@ def csv_tie(ctx, c, reread, impl, lines, case):
                                              'theorem': 'Hpv.Props.C15.file_round_trip (speaks of Hpv.Csv.writeRows)'}, no_input=same)
 
 
+def evaluate_csv_dialect(ctx, thorough):
+    """the csv dialect model against the standard csv module the library reads and writes through: every text up to length 5
+    (6) over {a , " CR LF} and random longer ones over a wider alphabet go through csv.reader over a newline='' handle and through
+    the model's reader; random rows go through csv.writer (minimal and full quoting) and the model's writer."""
+    import csv
+    rng = ctx.rng
+    texts = [''.join(t) for n in range(0, (7 if thorough else 6)) for t in itertools.product(['a', ',', '"', '\r', '\n'], repeat=n)]
+    alph = ['a', 'b', ',', '"', '\r', '\n', ' ', '#', '\xe9', 'x', '\t', "'", '\x0b', '\x1c', '\x85', '\u2028', '\U0001F600', ';']
+    for _ in range(60000 if thorough else 12000):
+        texts.append(''.join(rng.choice(alph[:10]) if rng.random() < 0.9 else rng.choice(alph) for _ in range(rng.randrange(0, 16))))
+    reqs, exp = [], []
+    for t in texts:
+        reqs.append({'op': 'csv.read', 'text': t})
+        try:
+            exp.append({'records': list(csv.reader(io.StringIO(t, newline='')))})
+        except csv.Error:
+            exp.append({'err': 'csv.Error'})
+    for _ in range(20000 if thorough else 5000):
+        rows = [[''.join(rng.choice(alph) for _ in range(rng.randrange(0, 5))) for _ in range(rng.randrange(1, 5))] for _ in range(rng.randrange(0, 5))]
+        for qa in (False, True):
+            reqs.append({'op': 'csv.write', 'rows': rows, 'quote_all': qa})
+            h = io.StringIO(newline='')
+            csv.writer(h, quoting=csv.QUOTE_ALL if qa else csv.QUOTE_MINIMAL).writerows(rows)
+            exp.append({'text': h.getvalue()})
+    reps = run_driver(reqs)
+    for rq, e, o in zip(reqs, exp, reps):
+        kind = 'csv-dialect.' + rq['op']
+        nt = (rq['op'] == 'csv.read' and any(ch in rq['text'] for ch in '"\r\n,')) or (rq['op'] == 'csv.write' and any(any(ch in f for ch in ',"\r\n') for r in rq['rows'] for f in r))
+        ctx.case([kind, rq.get('text', rq.get('rows')), rq.get('quote_all')], nt, 'csv-dialect')
+        if o != e:
+            ctx.count(kind + '.differ')
+            # the model of the standard library's csv module is off: a broken tie, not a failing input of the property
+            ctx.violation(kind, {'case': {'kind': 'csv-dialect', 'request': rq}, 'python_csv': e, 'model': o,
+                                 'theorem': 'Hpv.Props.C15.csv_round_trip (model of the csv module)'}, no_input=True)
+        else:
+            ctx.count(kind + '.agree')
+
+
 def frame_tie(ctx, c, suffix, case):
     """the framing model (Hpv.Sim.unframe / parseMeta) against from_csv on the file to_csv wrote: the physical lines of the file,
     read the way the library reads them (newlines untranslated), go to the model; what the model hands to the csv reader is
@@ -396,11 +434,27 @@ def run(ctx):
         cases.append(([('k', 'v' + ch + 'w')], [('set', 'A:1', 'B:1', 1.0)]))
         cases.append(([('ok', 'fine'), ('k', ch)], []))
     evaluate_meta(ctx, cases, forb, 'metadata+csv-round-trip')
+    evaluate_csv_dialect(ctx, thorough)
 
 
 def replay(ctx, data):
     c = data['case']
     if c['kind'] == 'hist':
         evaluate_hist(ctx, [[tuple(o) for o in c['ops']]], 'replay')
+    elif c['kind'] == 'csv-dialect':
+        import csv
+        rq = c['request']
+        o = run_driver([rq])[0]
+        if rq['op'] == 'csv.read':
+            try:
+                e = {'records': list(csv.reader(io.StringIO(rq['text'], newline='')))}
+            except csv.Error:
+                e = {'err': 'csv.Error'}
+        else:
+            h = io.StringIO(newline='')
+            csv.writer(h, quoting=csv.QUOTE_ALL if rq.get('quote_all') else csv.QUOTE_MINIMAL).writerows(rq['rows'])
+            e = {'text': h.getvalue()}
+        if o != e:
+            ctx.violation('csv-dialect.' + rq['op'], {'case': c, 'python_csv': e, 'model': o}, no_input=True)
     else:
         evaluate_meta(ctx, [([tuple(x) for x in c['meta']], [tuple(o) for o in c['ops']])], forbidden_table(), 'replay')
